@@ -15,6 +15,7 @@ META = {
     'note': 'Trusted: TLC, JSON plumbing, the pixel diff. Input-quantified property: sampled (boundary-dense + random), not exhaustive. '
             'Line patterns (styles), STEP forms, float coordinates, WINDOW and clipping are outside this property (clipping: C30).',
 }
+META['text'] += ' Graphics statements that are refused (degenerate or out-of-range VIEW, degenerate WINDOW, invalid DRAW, oversized GET) are interleaved; the primitives after them are judged as on any unclipped screen.'
 
 
 def line_order(px, x0, y0, x1, y1):
